@@ -438,15 +438,49 @@ func binExclude(o corrOpts, sum *res.Summary, r *rng.R, bin string) {
 		}
 		sets = append(sets, s)
 	}
+	// structured sets: a category spelled out code by code, complete or with one code left out, with repeats
+	// (a list with as many tokens as the category has codes is not the category)
+	var structured [][]string
+	for _, cat := range cats {
+		var cs []string
+		for _, c := range codes.CodesByCategory[cat] {
+			cs = append(cs, c.ID)
+		}
+		sort.Strings(cs)
+		structured = append(structured, append([]string{}, cs...))
+		for omit := range cs {
+			var s []string
+			for k, c := range cs {
+				if k != omit {
+					s = append(s, c)
+				}
+			}
+			if len(s) == 0 {
+				continue
+			}
+			s = append(s, s[r.Intn(len(s))]) // a repeat makes up the count
+			if r.Bool() {
+				s = append(s, s[0])
+			}
+			structured = append(structured, s)
+		}
+	}
 	if o.tier != "thorough" {
-		// quick: all singletons of categories + a sample of the rest
+		// quick: every singleton of ALL / categories / codes, a third of the structured sets, a sample of the rest
 		var q [][]string
 		for i, s := range sets {
-			if i < 1+len(cats) || r.Chance(1, 3) {
+			if i < 1+len(cats)+len(all) || r.Chance(1, 4) {
 				q = append(q, s)
 			}
 		}
 		sets = q[:min(len(q), n)]
+		for i, s := range structured {
+			if (i+int(o.seed))%3 == 0 {
+				sets = append(sets, s)
+			}
+		}
+	} else {
+		sets = append(sets, structured...)
 	}
 	for i, S := range sets {
 		// spelling: random case and spacing
@@ -638,7 +672,8 @@ func binWellformed(o corrOpts, sum *res.Summary, r *rng.R, bin string) {
 	})
 	done := 0
 	for _, d := range cands {
-		if done >= k {
+		// every diagnostic of the hand-written module (nested and multi-line statements included), then k generated ones
+		if done >= k && strings.HasPrefix(d.File, "k") {
 			break
 		}
 		if d.Code == "" || d.File == "" {
@@ -659,7 +694,9 @@ func binWellformed(o corrOpts, sum *res.Summary, r *rng.R, bin string) {
 		pat := "./" + filepath.Dir(d.File)
 		got := runStandalone(bin, dir, nil, nil, pat)
 		os.WriteFile(path, orig, 0o644)
-		done++
+		if strings.HasPrefix(d.File, "k") {
+			done++
+		}
 		sum.Evaluations++
 		sum.Count("inline-ignore-" + d.Code)
 		if c := crashed(got); c != "" {
